@@ -50,6 +50,14 @@ func verifPopulate(st *State) {
 		st.Accounts.SetNonce(a, uint64(5+i))
 	}
 	st.Accounts.SetBalance(A, 2, verifAmount("bal2.A", 300))
+	if verifConfig("concrete") == 1 {
+		// map-order mode (C08): one account with many balance records, so that an
+		// order-dependent sequence of tree writes also shows up natively as a
+		// different IAVL shape (root hash) within a few runs
+		for c := 10; c < 26; c++ {
+			st.Accounts.SetBalance(A, types.CoinID(c), verifE18(int64(1000+c)))
+		}
+	}
 	st.Accounts.CreateMultisig([]uint32{1, 2}, []types.Address{A, B}, 2, verifA(9))
 	st.Candidates.Create(A, A, A, P, 10, 1, 0)
 	st.Candidates.Create(B, B, B, Q, 20, 1, 0)
